@@ -625,6 +625,16 @@ func (p *Proxy) handle(ctx *Context, conn net.Conn, brw *bufio.ReadWriter) error
 		}
 	}
 
+	// A response that cannot have a body (to HEAD, 1xx, 204, 304) may still
+	// announce "Transfer-Encoding: chunked" (RFC 7230 section 3.3.1). For those
+	// http.Response.Write emits the CRLF that terminates a chunked body although
+	// no body was written; the client would take it for the start of the next
+	// response. Transfer-Encoding is hop-by-hop, so drop it.
+	if len(res.TransferEncoding) > 0 && (req.Method == "HEAD" || res.StatusCode/100 == 1 || res.StatusCode == 204 || res.StatusCode == 304) {
+		res.TransferEncoding = nil
+		res.ContentLength = 0
+	}
+
 	err = res.Write(brw)
 	if err != nil {
 		log.Errorf("martian: got error while writing response back to client: %v", err)
